@@ -31,6 +31,11 @@ class LazySource(io.BufferedIOBase):
             self.unit = bytes(1 << 20)
         elif texture == "period":
             self.unit = (b"abcdefg" * (1 << 18))[: 1 << 20]
+        elif texture == "mid":
+            # medium ratio (about 2:1): sixteen symbols, no long-range repetition inside 8 MiB
+            import random
+            r = random.Random(seed)
+            self.unit = bytes(b & 0x0F for b in r.randbytes(8 << 20))
         else:
             import random
             self.unit = random.Random(seed).randbytes(1 << 20)
@@ -122,7 +127,10 @@ def run(ctx):
            ("LZMA2-random", [{"id": arclib.FILTER_LZMA2, "preset": 0}], "random"),
            # a compressor that is not the last stage of the decoder chain (BCJ filter behind it)
            ("X86+BZip2", [{"id": arclib.FILTER_X86}, {"id": arclib.FILTER_BZIP2}], "zeros"),
-           ("ARM+LZMA", [{"id": arclib.FILTER_ARM}, {"id": arclib.FILTER_LZMA, "preset": 1}], "zeros")]
+           ("ARM+LZMA", [{"id": arclib.FILTER_ARM}, {"id": arclib.FILTER_LZMA, "preset": 1}], "zeros"),
+           # medium-ratio members: the packed stream spans many input blocks, every block expands a little
+           ("ZStandard-mid", [{"id": arclib.FILTER_ZSTD, "level": 1}], "mid"),
+           ("Deflate-mid", [{"id": arclib.FILTER_DEFLATE}], "mid")]
     if ctx.thorough:
         fam += [("LZMA", [{"id": arclib.FILTER_LZMA, "preset": 1}], "zeros"),
                 ("Brotli", [{"id": arclib.FILTER_BROTLI, "level": 1}], "zeros"),
@@ -148,7 +156,7 @@ def run(ctx):
             base, peak, arcsize = val
             ctx.count("write_peak_above_base_mib", nm, peak - base)
             if peak - base > BUDGET_MIB:
-                ctx.fail("C20:write_rss:" + nm.split("-")[0], "writing one %d MiB %s member through %s peaked %d MiB above the interpreter baseline" % (size >> 20, tex, nm, peak - base),
+                ctx.fail("C20:write_rss:" + nm.split("-")[0] + ":" + tex, "writing one %d MiB %s member through %s peaked %d MiB above the interpreter baseline" % (size >> 20, tex, nm, peak - base),
                          {"chain": nm, "texture": tex, "size": size, "peak_mib": peak, "base_mib": base})
             hows = ["factory", "testzip"] if not ctx.thorough else ["factory", "testzip", "path"]
             for how in hows:
@@ -163,7 +171,7 @@ def run(ctx):
             base, peak, _ = val
             ctx.count("extract_peak_above_base_mib", nm + "/" + how, peak - base)
             if peak - base > BUDGET_MIB:
-                ctx.fail("C20:extract_rss:" + nm.split("-")[0], "extracting one %d MiB %s member (%s) through %s peaked %d MiB above the interpreter baseline" % (size >> 20, tex, how, nm, peak - base),
+                ctx.fail("C20:extract_rss:" + nm.split("-")[0] + ":" + tex, "extracting one %d MiB %s member (%s) through %s peaked %d MiB above the interpreter baseline" % (size >> 20, tex, how, nm, peak - base),
                          {"chain": nm, "texture": tex, "size": size, "how": how, "peak_mib": peak, "base_mib": base})
     finally:
         shutil.rmtree(tmp, ignore_errors=True)
